@@ -8,6 +8,7 @@ import (
 	"io"
 	"net"
 	"net/netip"
+	"runtime"
 	"sync"
 	"syscall"
 	"time"
@@ -50,6 +51,13 @@ type Pair struct {
 	// full for a while). One Write call still takes effect atomically, as on a
 	// real socket whose fd write lock serialises concurrent Write calls.
 	WriteDelay0 func() time.Duration
+	// CloseDelay0 makes Close of end 0 take that long (virtual time) before it has
+	// any effect, as a close that has to flush or wait for the kernel does. Set it
+	// before the pair is used.
+	CloseDelay0 time.Duration
+	// CloseYields0 makes Close of end 0 yield the processor that many times before
+	// it has any effect (no virtual time passes: usable when locks are contended).
+	CloseYields0 int
 
 	// Tap0, if set, observes every successful Write of end 0 (corebgp's side)
 	// at the moment the transport accepts it, under the pair lock: this is
@@ -83,6 +91,13 @@ func (p *Pair) Closed(i int) int {
 	p.mu.Lock()
 	defer p.mu.Unlock()
 	return p.closes[i]
+}
+
+// Ops reports the number of Read and Write calls made on end i.
+func (p *Pair) Ops(i int) int {
+	p.mu.Lock()
+	defer p.mu.Unlock()
+	return p.reads[i] + p.writes[i]
 }
 
 // Wrote reports bytes written by end i.
@@ -207,6 +222,14 @@ func (c *Conn) Write(b []byte) (int, error) {
 // Close closes this end: the peer reads pending data, then EOF.
 func (c *Conn) Close() error {
 	p := c.p
+	if c.i == 0 && p.CloseDelay0 > 0 {
+		time.Sleep(p.CloseDelay0)
+	}
+	if c.i == 0 {
+		for k := 0; k < p.CloseYields0; k++ {
+			runtime.Gosched()
+		}
+	}
 	p.mu.Lock()
 	p.closes[c.i]++
 	first := !p.fin[c.i]
@@ -260,11 +283,14 @@ func (c *Conn) SetWriteDeadline(t time.Time) error { return nil }
 
 // Listener is an in-memory net.Listener.
 type Listener struct {
-	mu     sync.Mutex
-	cond   *sync.Cond
-	addr   net.Addr
-	queue  []*Conn
-	closed bool
+	// CloseDelay makes Close take that long (virtual time) before it has any
+	// effect. Set it before the listener is used.
+	CloseDelay time.Duration
+	mu         sync.Mutex
+	cond       *sync.Cond
+	addr       net.Addr
+	queue      []*Conn
+	closed     bool
 	// acceptors parked in Accept
 	parked int
 	// gate: while held no connection is handed out
@@ -310,6 +336,9 @@ func (l *Listener) Accept() (net.Conn, error) {
 }
 
 func (l *Listener) Close() error {
+	if l.CloseDelay > 0 {
+		time.Sleep(l.CloseDelay)
+	}
 	l.mu.Lock()
 	l.closed = true
 	q := l.queue
